@@ -49,6 +49,8 @@ def cases(tier):
         for ep in ERR_POS if ek != "none" else ["top-before"]:
             if tier == "quick" and ff in ("nested", "twice") and amode in ("ifdef", "ifndef") and ek not in ("none", "ifdef"):
                 continue
+            if i == 0:
+                yield _reread_case(tier)
             for dmode in (["none", "ifdef", "ifndef"] if amode == "inline" and ek in ("none", "ifdef") else ["none"]):
                 yield dict(ff=ff, define=dfn, amode=amode, err=ek, errpos=ep, dmode=dmode, tier=tier, idx=i)
                 i += 1
@@ -56,6 +58,10 @@ def cases(tier):
                     # the macro the conditions test is defined with a value (#define M 42) instead of as a bare flag
                     yield dict(ff=ff, define=dfn, amode=amode, err=ek, errpos=ep, dmode=dmode, tier=tier, idx=i, mval=True)
                     i += 1
+
+
+def _reread_case(tier):
+    return dict(kind="reread", tier=tier, idx=-1)
 
 
 def mol_lists(tier):
@@ -341,7 +347,65 @@ def check_tree(cfg, mols, noise, missing_guard):
     return viols, exp
 
 
+def check_reread(cfg):
+    """one directory, read, rewritten in place with another tree of the same file names, read again (one process): the second
+    read must equal reading the second tree from a fresh directory - reading depends on the files on disk only"""
+    viols, evals, keys = [], 0, []
+    variants = []
+    for ff in ("include", "nested"):
+        for dfn in ("before", "never"):
+            for amode in ("include", "ifdef"):
+                variants.append(dict(ff=ff, define=dfn, amode=amode, err="none", errpos="top-before", dmode="none"))
+    lists = [[("A", 1), ("B", 2)], [("B", 1), ("A", 1), ("C", 1)], [("C", 2)]]
+    import os
+    for (ia, va), (ib, vb) in itertools.permutations(list(enumerate(variants)), 2):
+        if va["ff"] != vb["ff"] or (ia + ib) % 3:
+            continue
+        for la, lb in ((lists[0], lists[1]), (lists[1], lists[2])):
+            fa, _, _ = build_tree(va, la, False, False)
+            fb, _, _ = build_tree(vb, lb, True, False)
+            # the second tree differs from the first in every file (masses, force constants), included files too
+            fb = {k: v.replace("72.0", "73.5").replace("36.0", "37.5").replace(" 0.33 500", " 0.34 510") for k, v in fb.items()}
+            evals += 1
+            case1 = dict(kind="reread", one=[va, la, vb, lb])
+            with H.tempdir() as d:
+                def write(root, files):
+                    for rel, text in files.items():
+                        p = root / rel
+                        p.parent.mkdir(parents=True, exist_ok=True)
+                        p.write_text(text)
+                write(d / "fresh", fb)
+                ref = read(d / "fresh" / "sys.top")
+                write(d / "work", fa)
+                first = read(d / "work" / "sys.top")
+                for rel in fa:
+                    if rel not in fb:
+                        (d / "work" / rel).unlink()
+                write(d / "work", fb)
+                second = read(d / "work" / "sys.top")
+                # the same from inside the directory with bare relative names
+                old = os.getcwd()
+                os.chdir(d / "work")
+                try:
+                    third = read("sys.top")
+                finally:
+                    os.chdir(old)
+            if ref[0] != "OK" or first[0] != "OK":
+                continue
+            want = digest(ref[1])
+            for label, got in (("absolute path", second), ("relative path from inside the directory", third)):
+                if got[0] != "OK" or digest(got[1]) != want:
+                    what = got[0] if got[0] != "OK" else [k for k in want if digest(got[1]).get(k) != want[k]]
+                    if len(viols) < 10:
+                        viols.append(dict(assertion="reading-depends-on-the-files-on-disk-only", tags=["re-read-after-rewrite"],
+                                          message=f"second read ({label}) of a directory rewritten in place differs from a fresh read of the same files: {what}", case=case1, detail={}))
+            keys.append(json.dumps([ia, ib, la, lb]))
+    return dict(evals=evals, keys=keys, violations=viols, stats={"rereads": evals}, sample=dict(kind="reread", pairs=evals))
+
+
 def run_case(cfg):
+    if cfg.get("kind") == "reread":
+        return check_reread(cfg)
     if cfg.get("single"):
         s = cfg["single"]
         v, _ = check_tree(cfg, [tuple(m) for m in s["mols"]], s["noise"], s["missing_guard"])
